@@ -32,7 +32,8 @@ def inputs_for(plan, idx, tier, rng):
     out.append(dict(kind=rng.choice(["periodic", "text", "equal"]), n=rng.randint(20, 400), period=rng.choice([1, 2, 3, 7, 30]),
                     tag="small-rep"))
     # periodic with a period around the dictionary size (distance = dict_size and dict_size +- 1)
-    cap = 20000 if quick else (1 << 20) + 1
+    slow = plan.get("mode") != "fast" and plan.get("depth") not in ("0", "1")
+    cap = 20000 if quick else (200000 if slow else (1 << 20) + 1)
     per = min(ds, cap) + rng.choice([-1, 0, 0, 1])
     out.append(dict(kind="periodic", n=int(per * rng.choice([2.2, 3.1])) + rng.randint(0, 50), period=max(1, per), tag="periodic-dict"))
     # incompressible: uncompressed-chunk path, chunk limit 2^16
@@ -46,6 +47,10 @@ def inputs_for(plan, idx, tier, rng):
         n = rng.choice([12000, 40000, 65536 + rng.choice([-1, 0, 1])])
     out.append(dict(kind=rng.choice(["equal", "text", "x86" if plan.get("chain") in ("x86", "arm64delta") else "text"]), n=n,
                     tag="around-limits"))
+    if e == "stream_mt" and bs:
+        # every Block re-initialises an encoder (up to 100+ MiB of tables): keep the number of Blocks bounded
+        for x in out:
+            x["n"] = min(x["n"], (40 if ds < (1 << 24) else 12) * bs + 1)
     heavy = ds >= (1 << 24)
     if quick and heavy:
         # presets 7-9 spend their time allocating and clearing 100+ MiB of match finder tables per Block:
@@ -57,6 +62,14 @@ def inputs_for(plan, idx, tier, rng):
         for x in keep:
             x["heavy"] = True
         return keep
+    if quick:
+        fast = plan.get("mode") == "fast" or e in ("easy", "easy_buffer") and int(plan["preset"]) <= 3
+        if idx % 8 == 0 and fast:
+            # LZMA2 chunk limit 2^21 (cheap: all-equal data)
+            out.append(dict(kind="equal", n=(1 << 21) + rng.choice([-1, 0, 1]) + rng.choice([0, 300]), tag="chunk-2MiB"))
+        elif idx % 8 == 4 and fast and ds <= 65536:
+            # longer than the encoder's input window: move_window() runs
+            out.append(dict(kind="text", n=700000 + rng.randint(0, 4000), tag="window-slide"))
     if not quick:
         big = idx % 6
         if big == 0:
@@ -69,6 +82,9 @@ def inputs_for(plan, idx, tier, rng):
             out.append(dict(kind="periodic", n=3 * (1 << 20) + 7, period=(1 << 20) + rng.choice([0, 1, 2]), tag="periodic-1MiB"))
         elif big == 4:
             out.append(dict(kind="mixed", n=300000 + rng.randint(0, 1000), tag="mixed-300K"))
+    if e == "stream_mt" and bs:
+        for x in out:
+            x["n"] = min(x["n"], (40 if ds < (1 << 24) else 12) * bs + 1)
     return out
 
 def bias_values(n, ds, rng, quick, heavy=False):
@@ -79,7 +95,7 @@ def bias_values(n, ds, rng, quick, heavy=False):
     if ds + 2 < n:
         extra.append(ds + rng.choice([0, 1, 2]))
     vals = sorted(set(c + extra))
-    lim = (1 if heavy else 3) if quick else 4
+    lim = (1 if heavy else 3) if quick else (2 if n > 500000 else 4)
     if len(vals) > lim:
         rng.shuffle(vals); vals = sorted(vals[:lim])
     return vals
